@@ -19,7 +19,7 @@ PROPS = {
     "C11": {"level": "exploration", "assumptions": ["A-py", "A-regex"],
             "rule": "bounded stand-in on the real _preprocess_string: every code point as single separator (distinct = code points + distinct outputs of the short-string enumeration; non-trivial = all, each compared with the stated normalisation computed from unicodedata); plus 3 deductive obligations (case-insensitive compilation, am/pm case)"},
     "C16": {"level": "proof", "assumptions": ["A-py", "A-real", "A-lib"]},
-    "C17": {"level": "proof", "assumptions": ["A-py", "A-lib"]},
+    "C17": {"level": "proof", "assumptions": ["A-py", "A-lib", "A-real", "A-analysis"]},
     "C13": {"level": "proof", "assumptions": ["A-py", "A-lib"]},
     "C14": {"level": "proof", "assumptions": ["A-py", "A-lib", "A-real"]},
 }
@@ -39,15 +39,15 @@ _T = {
  "C06": ("clock rules against an (hour, minute, am/pm) spec incl. 12am/12pm", "A-regex, A-py." + BR),
  "C07": ("range rules: ends as written, ordering guards, 12h / next-day wrap, 0 < length <= 24h; auxiliary inductive invariant on date-less clock ranges", "A-dateutil, A-py." + BR),
  "C08": ("duration rules: amount and unit as written; date + N units by calendar arithmetic; N-days consistency", "A-dateutil, A-regex, A-py." + BR),
- "C09": ("span clause only: rule wrapper and latent post-processing keep an exact span (span-covers-arguments, span-preserved)", "resolution invariance under inert context is relational through regex engine + ranking: not covered (DESIGN 6)."),
+ "C09": ("span clause: rule wrapper, latent post-processing, apply_rule and RegexMatch.__init__ keep an exact span (span-covers-arguments, span-preserved, span-ends-at-the-last-non-blank-character); RegLan lemma per pattern: no word of L(p) starts with a blank; per pattern, decided on the parse tree of the real pattern string: no unguarded letter run reaches across a blank inside the match to the edge of the match (patterns that have such runs are examined run by run against adversarial inert neighbour words, BOUNDED); length term of the score is a constant shift", "resolution invariance under inert context is relational through regex engine + ranking: the lemma 'matches on the embedded text = matches on the expression' is decided statically only for patterns without edge runs, otherwise bounded (adversarial inert words x expression pool through the real ctparse) together with the context bridge (corpus and grammar expressions among 0-3 inert words)."),
  "C10": ("_get_labels executed on abstract text: result is the order-preserving map m -> m.replace('#','') over re.findall(P, txt); RegLan lemmas: every valid hashtag is found whole by the finding pattern and removed whole by the stripping pattern, which is the same constant on both paths and touches only '#'-words; ctparse() no-match branch computes subject and labels by the very pipeline term the prefix of _ctparse computes (terms compared structurally)", "text processing by re/regex/str methods is uninterpreted (A-regex, A-lib); 'drops every word inside a match the resolution was built from' and invariance of the resolution under hashtags are not covered (relational, through the regex engine and ranking)."),
  "C13": ("timers.timeout/_tt executed with a ghost list of clock reads: timeout 0 never reads the clock nor raises, otherwise exactly one read and raise iff now-start > timeout; ghost work counter over _ctparse/_regex_stack: every loop over an N-sized collection starts each iteration with the deadline check, work between checks is independent of N; all check sites inside the try whose handler only ends the stream; check result unused (prefix lemma); ctparse()/ctparse_gen forward timeout unchanged", "work = from_regex_matches/apply_rule/score/score_final calls and the N-sized collections are sidecar annotations; real clock assumed monotone; counter-models replayed with a virtual clock patched into ctparse.timers.perf_counter."),
- "C14": ("ctparse() executed on streams of 0..3 symbolic candidates: result is a stream element with maximal score, empty resolution iff empty stream, every option forwarded unchanged to the stream (also documented defaults); ctparse_gen yields every candidate of _ctparse in order", "selection is proved for streams of up to 3 elements (bounded: list.sort executed as a stable insertion sort with symbolic keys), floats as reals; emission-dedup invariant of _ctparse: see C14 emission unit; finiteness of NB scores: C16."),
+ "C14": ("ctparse() executed on a stream of ANY length N >= 1 (list of symbolic length, scores an uninterpreted function of the element): the result is a stream element and no element scores higher; on streams of 0..3 concrete candidates additionally: empty resolution iff empty stream, every option forwarded unchanged to the stream (also documented defaults); ctparse_gen yields every candidate of _ctparse in order", "list.sort enters the any-length proof through its trusted contract (the new order is a permutation of the old one under which the keys ascend: A-py); the 2- and 3-element units execute a stable insertion sort with symbolic keys and are listed as bounded (they give replayable counter-models when the selection is broken); floats as reals; emission-dedup invariant of _ctparse: see C14 emission unit; finiteness of NB scores: C16."),
  "C11": ("bounded, exhaustive for single code points: the real _preprocess_string equals the stated normalisation for every code point U+0000..U+10FFFF as separator and for all strings up to length 5 (thorough: 7) over class representatives (idempotent, trimmed, runs collapsed); deductive part: every rule regex is compiled as defines+(?i)+pattern with VERSION1, and the am/pm clock contract holds for every letter case", "no Python-level control flow to put a contract on (two calls into the C regex engine): claimed as exploration, not proof. Equality of resolutions of case/separator variants end-to-end is A-regex + A-rank (not covered). Code points on which the regex module's Unicode tables and unicodedata disagree are listed as version skew."),
  "C16": ("straight-line algebra proved on the real code over the reals: score/score_final = log-odds + (1000x) log(covered/len(text)) with features = rule trace; predict_log_probability = joint - log-sum-exp per document (accumulators per document); class prior = (log share neg, log share pos); Laplace-smoothed likelihoods with denominator T_c + alpha*V; lemma: posteriors exponentiate to probabilities summing to one; no exceptional exit (log arguments > 0)", "floats as reals with uninterpreted log/exp (A-real); documents/vocabulary unrolled to small fixed shapes with symbolic counts; vectoriser + fit + predict + save/load compared with an independent textbook implementation on an exhaustive small scope: BOUNDED stand-in, listed under coverage.bounded and not counted as proved; shipped-model-on-corpus clause is data, not covered."),
- "C17": ("make_partial_rule_dataset executed with a stubbed candidate stream: exactly one sample per trace prefix in order, every label = value equality (real __eq__) of resolution and gold for all kinds, candidates generated with latent_time=False and the given options; train_naive_bayes builds CountVectorizer((1,3)) + MultinomialNaiveBayes(1.0) with +-1 labels; value equality and text form from C18; class prior order from C16", "monotonicity under duplication of a positive example is a non-linear real-analysis inequality: not covered (DESIGN 6); run_corpus compares nb_str() strings (equivalent to value equality by C18's round trip, paper step)."),
+ "C17": ("make_partial_rule_dataset executed with a stubbed candidate stream: exactly one sample per trace prefix in order, every label = value equality (real __eq__) of resolution and gold for all kinds, candidates generated with latent_time=False and the given options; train_naive_bayes builds CountVectorizer((1,3)) + MultinomialNaiveBayes(1.0) with +-1 labels; value equality and text form from C18; class prior order from C16", "monotonicity under duplication of a positive example: the estimator contracts (prior, Laplace-smoothed likelihoods, posterior; shared with C16) + two discharged lemmas (prior odds do not fall; likelihood of a one-feature document does not fall; log only through instantiated monotonicity) + the convexity of log(1+1/x) for documents with several features (paper step, A-analysis, DESIGN A.9) + a BOUNDED stand-in on the real training entry point (small exhaustive scope and seeded random corpora with repeated n-grams); run_corpus compares nb_str() strings (equivalent to value equality by C18's round trip, paper step)."),
  "C18": ("the real Artifact.__eq__/__hash__ executed on two symbolic values of every pair of kinds: == iff same kind and value (spans free), equal values hash equal; the real __str__/nb_str/from_str/parse_nb_string executed on structured strings: parse(text form) is value-equal; Interval round trip modular over the Time contracts", "A-py (str.format of non-negative ints, int() of digit strings, tuple hashing by value); _TIME_REGEX.match is executed by a small matcher over structured strings (A-regex for the real engine); injectivity of the text form is the logical corollary of the round trip (not a separate obligation); 'every gold string of the bundled dataset' is data, not covered."),
- "C20": ("gluing rules keep the date of the date part and the clock of the clock part, both orders", "A-py." + BR),
+ "C20": ("gluing rules keep the date of the date part and the clock of the clock part, both orders; the weekday rules reached with and without a following clock (ruleAtDOW, ruleLatentDOW) name the same day", "A-py." + BR),
  "C12": ("frame obligations: no rule body stores into an object that existed before the call", "A-py, A-noalias; threads / hash seed / set order are not expressible as contracts (not covered)."),
  "C15": ("frame obligations of all rule bodies (a candidate does not change after it was yielded)", "A-py, A-noalias."),
  "C19": ("cover obligation per rule: the rule can fire on well-formed arguments", "A-regex, A-py."),
